@@ -235,6 +235,15 @@ func (e *SpecEnv) eval(x SpecExpr) Val {
 			if c.mode == ModeBV {
 				return Val{T: v.T, S: fmt.Sprintf("(bvnot %s)", v.S)}
 			}
+		case "*":
+			pt, ok := v.T.Underlying().(*types.Pointer)
+			if !ok {
+				e.fail("* applied to a non-pointer %v", v.T)
+			}
+			if e.st == nil {
+				e.fail("heap access without state")
+			}
+			return Val{T: pt.Elem(), S: c.load(e.st, c.ptrOf(v), pt.Elem())}
 		}
 		e.fail("unsupported unary %s", x.Op)
 	case *SBinary:
@@ -263,11 +272,15 @@ func (e *SpecEnv) evalIdent(name string) Val {
 			return e.eval(ld.Expr)
 		}
 	}
-	if name == "result" {
-		if len(e.results) == 0 {
-			e.fail("`result` used outside a postcondition")
-		}
+	if name == "result" && len(e.results) > 0 {
 		return e.results[0]
+	}
+	if name == "result" && e.f != nil {
+		// outside a postcondition (loop invariants, call-site assertions) `result` can only be a local variable of that name
+		if v, ok := e.f.lookupLocal(name, e.block, e.st); ok {
+			return v
+		}
+		e.fail("`result` used outside a postcondition")
 	}
 	if strings.HasPrefix(name, "result") {
 		var i int
@@ -760,6 +773,19 @@ func (e *SpecEnv) evalCall(x *SCall) Val {
 			arg := e.eval(x.Args[0])
 			recv := Val{T: fn.Params[0].Type(), S: c.so.zero(fn.Params[0].Type())}
 			return c.pureApp(fn, []Val{recv, arg}, fn.Signature.Results().At(0).Type(), e.st)
+		case "returned": // returned(NAME): what the latest call of NAME in this function's body returned
+			id, ok := x.Args[0].(*SIdent)
+			if !ok || len(x.Args) != 1 {
+				e.fail("returned() takes a function or method name")
+			}
+			v, found := c.lastCall[id.Name]
+			if !found {
+				e.fail("returned(%s): no call of %s precedes this point", id.Name, id.Name)
+			}
+			if cb := c.lastCallBlock[id.Name]; cb != nil && e.block != nil && cb != e.block && !cb.Dominates(e.block) {
+				e.fail("returned(%s): the call does not dominate this point", id.Name)
+			}
+			return v
 		case "effects":
 			return Val{T: types.Typ[types.Int], S: e.st.get(HeapKey{Name: "G_effects", Sort: "Int"})}
 		case "typeis": // typeis(ifaceValue, T)
@@ -929,7 +955,7 @@ func (e *SpecEnv) callSpecFn(sf *SpecFn, argx []SpecExpr) Val {
 	var ts []string
 	for i, a := range argx {
 		v := e.eval(a)
-		pt := e.lookupType(sf.Params[i].Type)
+		pt := e.specFnType(sf, sf.Params[i].Type)
 		v = e.coerce(v, pt)
 		ts = append(ts, c.termOf(v))
 		if st, isSlice := pt.Underlying().(*types.Slice); isSlice {
@@ -944,7 +970,7 @@ func (e *SpecEnv) callSpecFn(sf *SpecFn, argx []SpecExpr) Val {
 			}
 		}
 	}
-	rt := e.lookupType(sf.Ret)
+	rt := e.specFnType(sf, sf.Ret)
 	if len(ts) == 0 {
 		return Val{T: rt, S: "sf_" + sf.Name}
 	}
@@ -958,8 +984,11 @@ func (c *FuncCtx) declareSpecFn(e *SpecEnv, sf *SpecFn) {
 	c.specFnDeclared[sf.Name] = true
 	var ps, sorts []string
 	ne := &SpecEnv{c: c, pkg: e.pkg, names: map[string]Val{}, st: nil}
+	if dp := c.eng.typesPkg(sf.Pkg); dp != nil {
+		ne.pkg = dp // the body is written in the scope of the defining package (unexported fields, package names)
+	}
 	for _, p := range sf.Params {
-		t := e.lookupType(p.Type)
+		t := e.specFnType(sf, p.Type)
 		s := c.so.sortOf(t)
 		pn := p.Name + "!p"
 		ps = append(ps, fmt.Sprintf("(%s %s)", pn, s))
@@ -974,7 +1003,7 @@ func (c *FuncCtx) declareSpecFn(e *SpecEnv, sf *SpecFn) {
 		}
 		ne.names[p.Name] = pv
 	}
-	rs := c.so.sortOf(e.lookupType(sf.Ret))
+	rs := c.so.sortOf(e.specFnType(sf, sf.Ret))
 	name := "sf_" + sf.Name
 	opaque := false
 	if sf.Body != nil && c.mode == ModeInt && strings.ContainsAny(sf.Body.String(), "^&|") && !strings.Contains(sf.Body.String(), "&&") && !strings.Contains(sf.Body.String(), "||") {
@@ -998,7 +1027,7 @@ func (c *FuncCtx) declareSpecFn(e *SpecEnv, sf *SpecFn) {
 		c.symIdx[name] = len(c.defs)
 	}
 	body := ne.eval(sf.Body)
-	body = ne.coerce(body, e.lookupType(sf.Ret))
+	body = ne.coerce(body, e.specFnType(sf, sf.Ret))
 	if sf.Opaque && len(ps) > 0 {
 		var pnames []string
 		for _, p := range sf.Params {
@@ -1006,7 +1035,13 @@ func (c *FuncCtx) declareSpecFn(e *SpecEnv, sf *SpecFn) {
 		}
 		app := fmt.Sprintf("(%s %s)", name, strings.Join(pnames, " "))
 		c.addDef(Def{Sym: name, Text: fmt.Sprintf("(declare-fun %s (%s) %s)", name, strings.Join(sorts, " "), rs)})
-		c.axiom(fmt.Sprintf("(forall (%s) (! (= %s %s) :pattern (%s)))", strings.Join(ps, " "), app, c.termOf(body), app), name)
+		if sf.Abstract && !c.inLemma {
+			// `specfn abstract`: outside lemma proofs only the proved lemmas about the function are known (its
+			// definition would bring e.g. nonlinear arithmetic back into every query)
+			c.note("spec function %s is abstract here: only its proved lemmas are used, not its definition", sf.Name)
+		} else {
+			c.axiom(fmt.Sprintf("(forall (%s) (! (= %s %s) :pattern (%s)))", strings.Join(ps, " "), app, c.termOf(body), app), name)
+		}
 		c.addSpecAxioms(e)
 		return
 	}
@@ -1028,6 +1063,9 @@ func (c *FuncCtx) addSpecAxioms(e *SpecEnv) {
 		if c.axiomDone[i] {
 			continue
 		}
+		if c.inLemma && ax.Proved && i >= c.lemmaAxLimit {
+			continue
+		}
 		// only when at least one used specfn appears in the axiom text
 		used := false
 		var trig []string
@@ -1046,7 +1084,11 @@ func (c *FuncCtx) addSpecAxioms(e *SpecEnv) {
 		if err != nil {
 			panic(specErr{fmt.Sprintf("axiom %s: %v", ax.Name, err)})
 		}
-		c.assume("user axiom: " + ax.Name + ": " + ax.Text)
+		if ax.Proved {
+			c.note("lemma %s (proved as its own obligation) used as an axiom", ax.Name)
+		} else {
+			c.assume("user axiom: " + ax.Name + ": " + ax.Text)
+		}
 		c.axiom(t, trig[:1]...)
 	}
 }
@@ -1076,7 +1118,9 @@ func isIdentChar(b byte) bool {
 func (e *SpecEnv) callPure(fn *ssa.Function, args []Val) Val {
 	c := e.c
 	if e.st == nil && !pureExternal(fullName(fn)) {
-		e.fail("pure call %s without state", fn.Name())
+		if con := c.eng.contractFor(fn); con == nil || !con.Pure {
+			e.fail("pure call %s without state", fn.Name())
+		}
 	}
 	if c.qdepth > 0 {
 		c.inlineDefs++
